@@ -8,17 +8,18 @@ string, `Print.texts p`).
     interpreter on the grammar REGENERATED from /repo/jsonpath.peg (`Gen.grammar`) followed by the
     46-action stack machine; the rule bodies the recogniser lemmas were proved against are
     re-checked by `rfl` against the regenerated file on every run (`…_body` theorems of
-    Lemmas/ParsePrintRec*.lean), the action texts by checksum (`actions_as_expected`);
+    Lemmas/ParsePrintRec*.lean, Lemmas/EscapeGrammar.lean), the action texts by checksum
+    (`actions_as_expected`);
   * `Build.build`   (JPV/Build.lean) is the function all the theorems about abstract paths
     (C01 refinement, C08–C10, C12–C15 …) are stated for.
 
-Hypotheses: `Print.wf p` (the abstract path has a spelling at all — see JPV/Print.lean),
-`ExtOK ext p` (the standard-library parameter reads the literals of `p` back) and `EnvOK env p`
-(the function kinds recorded in `p` are the ones the library decides on).
+Hypotheses: `Print.wf p` (the abstract path has a spelling that parses back to it — see
+JPV/Print.lean for the five side conditions), `ExtOK ext p` (the standard-library parameter reads
+the literals of `p` back) and `EnvOK env p` (the function kinds recorded in `p` are the ones
+`pushFunction` decides on). All three are necessary: see the counterexamples at the end.
 -/
-import JPV.Lemmas.ParsePrintMainB
-import JPV.Peg.ExtDriver
-import JPV.Props.C16
+import JPV.Lemmas.ParsePrintSimRec
+import JPV.Lemmas.ParsePrintDriverExt
 namespace JPV
 namespace ParsePrint
 open JPV.Peg JPV.Print JPV.PP
@@ -31,6 +32,24 @@ def ParsePrint_full : Prop :=
   ∀ (env : Env) (ext : Ext) (cfg : Cfg) (p : Path), wf p = true → ExtOK ext p → EnvOK env p →
     Agree (Build.build env cfg (texts p)) (parseModel env ext cfg (printS p))
 
+/-- the full-strength statement holds -/
+theorem ParsePrint_holds : ParsePrint_full := by
+  intro env ext cfg p hp hext henv
+  obtain ⟨h, ss, fns⟩ := p
+  cases h with
+  | cur => simp [wf] at hp
+  | root => exact parse_print_all env ext cfg ss fns hp hext henv
+
+/-- **fragment (d)** = the whole domain: steps of every kind, trailing functions, filters with
+    existence tests, comparisons (literal/path operands on either side), regular expressions,
+    `&&`/`||`/parentheses, filters nested in the paths of filters. -/
+def inFragmentD (p : Path) : Bool := wf p
+
+theorem ParsePrint_fragment_D (env : Env) (ext : Ext) (cfg : Cfg) (p : Path)
+    (hp : inFragmentD p = true) (hext : ExtOK ext p) (henv : EnvOK env p) :
+    Agree (Build.build env cfg (texts p)) (parseModel env ext cfg (printS p)) :=
+  ParsePrint_holds env ext cfg p hp hext henv
+
 /-- **fragment (b)**: paths without filters — child steps in dot and bracket spelling, wildcards,
     multi-name selectors, unions of indices / slices / `*`, `..` in front of any of them, trailing
     filter and aggregate functions. -/
@@ -39,9 +58,7 @@ theorem ParsePrint_fragment_B (env : Env) (ext : Ext) (cfg : Cfg) (p : Path)
     Agree (Build.build env cfg (texts p)) (parseModel env ext cfg (printS p)) := by
   obtain ⟨h, ss, fns⟩ := p
   simp only [inFragmentB, Bool.and_eq_true] at hp
-  cases h with
-  | cur => simp [wf] at hp
-  | root => exact parse_print_B env ext cfg ss fns hp.1 hp.2 hext henv
+  exact ParsePrint_holds env ext cfg _ hp.1 hext henv
 
 /-- **fragment (a)**: paths without filters and functions; parsing the printed path succeeds and
     yields exactly the tree of `Build.build`. -/
@@ -72,5 +89,169 @@ theorem ParsePrint_fragment_A (env : Env) (ext : Ext) (cfg : Cfg) (p : Path)
     | ok ch' => rw [hx] at hB; simp only [Agree] at hB; rw [hB]
     | _ => rw [hx] at hB; simp [Agree] at hB
 
+/-- the success case spelled out: when `Build.build` answers a tree, `Parse` of the printed path
+    answers the same tree -/
+theorem ParsePrint_ok (env : Env) (ext : Ext) (cfg : Cfg) (p : Path) (hp : wf p = true)
+    (hext : ExtOK ext p) (henv : EnvOK env p) (ch : List N)
+    (hb : Build.build env cfg (texts p) = .ok ch) : parseModel env ext cfg (printS p) = .ok ch := by
+  have h := ParsePrint_holds env ext cfg p hp hext henv
+  rw [hb] at h
+  cases hx : parseModel env ext cfg (printS p) with
+  | ok ch' => rw [hx] at h; simp only [Agree] at h; rw [h]
+  | _ => rw [hx] at h; simp [Agree] at h
+
+/-- the error cases spelled out -/
+theorem ParsePrint_functionNotFound (env : Env) (ext : Ext) (cfg : Cfg) (p : Path) (hp : wf p = true)
+    (hext : ExtOK ext p) (henv : EnvOK env p) (t : String)
+    (hb : Build.build env cfg (texts p) = .error (.funcNotFound t)) :
+    parseModel env ext cfg (printS p) = .functionNotFound t := by
+  have h := ParsePrint_holds env ext cfg p hp hext henv
+  rw [hb] at h
+  cases hx : parseModel env ext cfg (printS p) with
+  | functionNotFound t' => rw [hx] at h; simp only [Agree] at h; rw [h]
+  | _ => rw [hx] at h; simp [Agree] at h
+
+theorem ParsePrint_valueGroup (env : Env) (ext : Ext) (cfg : Cfg) (p : Path) (hp : wf p = true)
+    (hext : ExtOK ext p) (henv : EnvOK env p)
+    (hb : Build.build env cfg (texts p) = .error .valueGroupOperand) :
+    ∃ pos near, parseModel env ext cfg (printS p) =
+      .syntaxErr pos "JSONPath that returns a value group is prohibited" near := by
+  have h := ParsePrint_holds env ext cfg p hp hext henv
+  rw [hb] at h
+  cases hx : parseModel env ext cfg (printS p) with
+  | syntaxErr pos r near => rw [hx] at h; simp only [Agree] at h; exact ⟨pos, near, by rw [h]; rfl⟩
+  | _ => rw [hx] at h; simp [Agree] at h
+
+theorem ParsePrint_twoCurrentNodes (env : Env) (ext : Ext) (cfg : Cfg) (p : Path) (hp : wf p = true)
+    (hext : ExtOK ext p) (henv : EnvOK env p)
+    (hb : Build.build env cfg (texts p) = .error .twoCurrentNodes) :
+    ∃ pos near, parseModel env ext cfg (printS p) =
+      .syntaxErr pos "comparison between two current nodes is prohibited" near := by
+  have h := ParsePrint_holds env ext cfg p hp hext henv
+  rw [hb] at h
+  cases hx : parseModel env ext cfg (printS p) with
+  | syntaxErr pos r near => rw [hx] at h; simp only [Agree] at h; exact ⟨pos, near, by rw [h]; rfl⟩
+  | _ => rw [hx] at h; simp [Agree] at h
+
+/-! ### the hypotheses are satisfiable: a concrete environment, a concrete `Ext`, concrete paths -/
+
+/-- one filter function `f`, one aggregate function `g` -/
+def exEnv : Env :=
+  { ffn := fun n => if n = "f" then some (fun v => some v) else none,
+    afn := fun n => if n = "g" then some (fun _ => some .null) else none,
+    regex := fun _ _ => true }
+
+/-- the executable `driverExt` (Atoi and the three unescape routines of JPV/Lex/Escape.lean) with
+    `ParseFloat` = `Atoi` on integer spellings and every regular expression compiling -/
+def exExt : Ext :=
+  { driverExt with
+    parseFloat := fun s => match atoiModel s with | some n => .ok n | none => .err
+    regexCompile := fun _ => .ok }
+
+theorem ex_intOK (n : Int) (h1 : -9223372036854775808 ≤ n) (h2 : n ≤ 9223372036854775807) : intOK exExt n :=
+  driver_intOK n h1 h2
+theorem ex_numLit (n : Int) (h1 : -9223372036854775808 ≤ n) (h2 : n ≤ 9223372036854775807) :
+    litOK exExt (.num n) := by
+  have h : atoiModel (String.ofList (intText n)) = some n := driver_intOK n h1 h2
+  show (match atoiModel (String.ofList (intText n)) with | some n => FloatRes.ok n | none => .err) = .ok n
+  rw [h]
+theorem ex_childOK (k : String) : childOK exExt k := driver_childOK k
+theorem ex_nameOK (n : Name) : nameOK exExt n := driver_nameOK n
+theorem ex_strLit (s : String) : litOK exExt (.str s) := driver_strLit s
+theorem ex_atoi0 : exExt.atoi "0" = some 0 := driver_intOK 0 (by decide) (by decide)
+theorem ex_atoi1 : exExt.atoi "1" = some 1 := driver_intOK 1 (by decide) (by decide)
+
+/-- `$.a..b\ c[-12,:3,*]['x',*][''][?(!@.z||@<=3&&(@=~/ab/||'it\'s'==null))].f().g()` -/
+def exPath : Path :=
+  .mk .root
+    [.child "" "a", .desc (.child "" "b c"),
+     .union "" [.idx (-12), .slice none (some 3) none, .wild],
+     .multi "" [.key "x", .wild], .child "" "",
+     .filter "" (.or (.exist true (.mk .cur [.child "" "z"] []))
+       (.and (.cmp .le (.path (.mk .cur [] [])) (.lit (.num 3)))
+         (.or (.regex (.mk .cur [] []) "ab") (.cmp .eq (.lit (.str "it's")) (.lit .null)))))]
+    [.ffn "" "f", .afn "" "g"]
+
+example : print exPath =
+    "$.a..b\\ c[-12,:3,*]['x',*][''][?(!@.z||@<=3&&(@=~/ab/||'it\\'s'==null))].f().g()".toList := by decide
+
+theorem exPath_wf : wf exPath = true := by decide
+
+theorem exPath_ext : ExtOK exExt exPath := by
+  simp only [ExtOK, exPath, pathExt, stepsExt, stepExt, queryExt, operandExt, and_true, true_and]
+  refine ⟨ex_childOK _, ex_childOK _, ?_, ?_, ex_childOK _, ex_childOK _, ex_numLit 3 (by decide) (by decide),
+    rfl, ex_strLit _, trivial⟩
+  · intro s hs
+    simp only [List.mem_cons, List.not_mem_nil, or_false] at hs
+    rcases hs with rfl | rfl | rfl
+    · exact ex_intOK _ (by decide) (by decide)
+    · exact ⟨ex_atoi0, ex_intOK _ (by decide) (by decide), ex_atoi1⟩
+    · trivial
+  · intro n _; exact ex_nameOK n
+
+theorem exPath_env : EnvOK exEnv exPath := by
+  simp [EnvOK, exPath, pathEnv, stepsEnv, stepEnv, queryEnv, operandEnv, fnKindOK, exEnv]
+
+/-- the theorem applied: the real parser model and `Build.build` agree on this path, in both
+    configurations -/
+example (cfg : Cfg) : Agree (Build.build exEnv cfg (texts exPath)) (parseModel exEnv exExt cfg (printS exPath)) :=
+  ParsePrint_holds exEnv exExt cfg exPath exPath_wf exPath_ext exPath_env
+
+/-- an unregistered function: `$.a.h()` -/
+def exMissing : Path := .mk .root [.child "" "a"] [.ffn "" "h"]
+
+example : String.ofList (fnText (.ffn "" "h")) = ".h()" := by decide
+
+example (cfg : Cfg) : parseModel exEnv exExt cfg (printS exMissing) =
+    .functionNotFound (String.ofList (fnText (.ffn "" "h"))) := by
+  apply ParsePrint_functionNotFound exEnv exExt cfg exMissing (by decide)
+  · simp only [ExtOK, exMissing, pathExt, stepsExt, stepExt, and_true]; exact ex_childOK _
+  · simp [EnvOK, exMissing, pathEnv, stepsEnv, stepEnv, fnKindOK, exEnv]
+  · rw [Build.build, texts]
+    have := PP.buildPath_nf_missing exEnv cfg .root [.child "" "a"] [] (.ffn "" "h") []
+      (by intro s hs; simp at hs; subst hs; exact ⟨rfl, rfl⟩) (by simp) (by simp [fnFound, exEnv]) true
+    simpa [exMissing] using this
+
+/-- fragment (a) applied: `$.a[1:2]..*` -/
+example (env : Env) (cfg : Cfg) :
+    ∃ ch, parseModel env exExt cfg (printS (.mk .root [.child "" "a", .union "" [.slice (some 1) (some 2) none],
+        .desc (.wild "")] [])) = .ok ch ∧
+      Build.build env cfg (texts (.mk .root [.child "" "a", .union "" [.slice (some 1) (some 2) none],
+        .desc (.wild "")] [])) = .ok ch := by
+  apply ParsePrint_fragment_A env exExt cfg _ (by decide)
+  simp only [ExtOK, pathExt, stepsExt, stepExt, and_true]
+  refine ⟨ex_childOK _, ?_⟩
+  intro s hs
+  simp only [List.mem_cons, List.not_mem_nil, or_false] at hs
+  subst hs
+  exact ⟨ex_intOK _ (by decide) (by decide), ex_intOK _ (by decide) (by decide), ex_atoi1⟩
+
+/-! ### the side conditions of `Print.wf` are needed
+
+`Build.build` accepts abstract paths that no string parses to; on them the printed string is read
+as something else (or not at all). Each `decide` runs the regenerated grammar and the action
+machine on the printed string. -/
+
+/-- `[*]` is a wildcard step, not a union with the subscript `*` -/
+example : (print (.mk .root [.union "" [.wild]] []) = "$[*]".toList) ∧
+    (print (.mk .root [.wild ""] []) = "$.*".toList) := by decide
+
+/-- the whole input is a `jsonpath` (the recogniser ends in Action0, not in the error alternative) -/
+def accepted (s : List Char) : Bool :=
+  match recognise s.toArray with
+  | .ok _ toks => toks.getLast? == some (.action 0)
+  | _ => false
+
+/-- `@.a<'x'`: an ordering comparison with a string literal is not in the language, although
+    `Build.build` builds a tree for the abstract comparison -/
+example : accepted (print (.mk .root [.filter "" (.cmp .lt (.path (.mk .cur [.child "" "a"] [])) (.lit (.str "x")))] []))
+    = false := by decide
+example : accepted (print (.mk .root [.filter "" (.cmp .lt (.path (.mk .cur [.child "" "a"] [])) (.lit (.num 1)))] []))
+    = true := by decide
+
 end ParsePrint
 end JPV
+
+-- OBLIGATIONS: ParsePrint_holds ParsePrint_fragment_A ParsePrint_fragment_B ParsePrint_fragment_D
+--   ParsePrint_ok ParsePrint_functionNotFound ParsePrint_valueGroup ParsePrint_twoCurrentNodes
+--   exPath_wf exPath_ext exPath_env
